@@ -586,6 +586,10 @@ pub fn unescape_xml(s: &str) -> String {
     out
 }
 
+thread_local! {
+    pub static LAST_PANIC_LOCATION: std::cell::RefCell<String> = const { std::cell::RefCell::new(String::new()) };
+}
+
 #[derive(Debug)]
 pub enum CallOutcome {
     Response(Resp),
@@ -653,7 +657,8 @@ pub async fn call_async(svc: &S3Service, req: s3s::HttpRequest) -> CallOutcome {
         Err(_) => CallOutcome::Hang,
         Ok(Err(p)) => {
             let msg = p.downcast_ref::<String>().cloned().or_else(|| p.downcast_ref::<&str>().map(|s| (*s).to_owned())).unwrap_or_else(|| "?".into());
-            CallOutcome::Panic(msg)
+            let loc = LAST_PANIC_LOCATION.with(|c| c.borrow().clone());
+            CallOutcome::Panic(format!("{msg} @ {loc}"))
         }
         Ok(Ok(o)) => o,
     }
